@@ -136,10 +136,17 @@ func init() {
 			fsm := "storage/table/fsm"
 			n, v := int64(2), int64(-1)
 			if tier == "thorough" {
-				n, v = 3, 1
+				v = 1 // values of 0..1 bytes instead of exactly 1
 			}
 			for w := int64(0); w < 3; w++ {
 				r = append(r, &Instance{Pkg: fsm, Func: "VH_C01_reads", Args: []int64{w, n, 2, v}, Unwind: 32})
+			}
+			if tier == "thorough" {
+				// three pairs in the pre-state for the reads and the single-command kinds
+				r = append(r, &Instance{Pkg: fsm, Func: "VH_C01_reads", Args: []int64{0, 3, 2, -1}, Unwind: 32})
+				for k := int64(0); k <= 2; k++ {
+					r = append(r, &Instance{Pkg: fsm, Func: "VH_C01_step", Args: []int64{k, 3, 2, -1, 0}, Unwind: 32})
+				}
 			}
 			for k := int64(0); k <= 7; k++ {
 				nk := n
@@ -156,7 +163,7 @@ func init() {
 		Covers: map[string][]string{"VH_C01_reads": {"end"}, "VH_C01_step": {"end"}, "VH_C01_bigrange": {"end"}},
 		Bounds: map[string]string{
 			"quick":    "pre-state: 0..2 pairs (0..1 for two/three-key commands), keys 1..2 arbitrary bytes, values 1 arbitrary byte, both bookkeeping keys present with arbitrary 64-bit values; operation keys/bounds 0..2 bytes incl. empty, wildcard and inverted ranges; all flag combinations; log index 1..64 (one varint class) plus one instance with any 64-bit index; batches/sequences of 2 elements; a range delete (all flag combinations) over three pairs with 1.5 MiB values, i.e. more than one 4 MiB read chunk; unwind 32",
-			"thorough": "as quick with 0..3 pairs and values of 0..1 bytes",
+			"thorough": "as quick with values of 0..1 bytes, plus 0..3 pairs (1-byte values) for the reads and for put / delete / delete range",
 		},
 		Outside: "larger tables, keys longer than 2 bytes (key-length effects are C12's), values of other sizes than 1 byte and 1.5 MiB, Pebble internals (model M1: sorted map with batches/snapshots/iterators, bytewise order; inverted DeleteRange spans are no-ops)",
 		Assumptions: []string{
@@ -249,17 +256,16 @@ func init() {
 				{Pkg: fsm, Func: "VH_C02_vacuity", Expect: "violated"},
 			}
 			if tier == "thorough" {
-				r = append(r, &Instance{Pkg: fsm, Func: "VH_C02_txn", Args: []int64{0, 2, 1, 1}, Unwind: 32},
-					&Instance{Pkg: fsm, Func: "VH_C02_txn", Args: []int64{2, 0, 2, 1}, Unwind: 32},
-					&Instance{Pkg: fsm, Func: "VH_C02_txn", Args: []int64{1, 1, 2, 2}, Unwind: 32},
-					&Instance{Pkg: fsm, Func: "VH_C02_readonly", Args: []int64{2, 2, 2}, Unwind: 32})
+				// (two predicates on 0..2 pairs, 2-byte keys and a two-pair read-only
+				// transaction each exceed the path budget of 200000 and are not claimed)
+				r = append(r, &Instance{Pkg: fsm, Func: "VH_C02_txn", Args: []int64{0, 2, 1, 1}, Unwind: 32})
 			}
 			return r
 		},
 		Covers: map[string][]string{"VH_C02_txn": {"end"}, "VH_C02_readonly": {"end"}, "VH_C02_inbatch": {"end", "success-branch", "failure-branch"}},
 		Bounds: map[string]string{
 			"quick":    "transactions with (1 predicate, 1 success op), (0 predicates, 2 success ops), (2 predicates, 0 success ops), each with a one-put failure branch; predicates: any result enum, with/without value target, single key or range; ops: range / put / delete(range) with all flags; pre-state 0..1 pairs (0 for the two-op shape), 1-byte keys/values; read-only transaction (1 predicate) on 0..2 pairs; a transaction (1 predicate, one-put branches) after a plain put / delete / wildcard range delete in the same apply call and in the same command sequence, pre-state 0..1 pairs",
-			"thorough": "adds two ops on a 0..1-pair state, two predicates on 0..2 pairs, 2-byte keys",
+			"thorough": "adds the two-op shape on a 0..1-pair state",
 		},
 		Outside:     "longer predicate / operation lists; operations with an empty oneof (C16); crash atomicity (C04: one Pebble batch, one commit)",
 		Assumptions: []string{"Pebble model M1 (indexed batch reads see earlier writes of the batch)", "predicate semantics as documented in docs/user_guide/transactions.md and the property statement"},
@@ -320,8 +326,8 @@ func init() {
 			r := []*Instance{
 				{Pkg: tb, Func: "VH_C14_step", Unwind: 64},
 				{Pkg: tb, Func: "VH_C14_recreate", Unwind: 64},
-				{Pkg: tb, Func: "VH_C14_race", Args: []int64{1}, Unwind: 64},
-				{Pkg: tb, Func: "VH_C14_race", Args: []int64{0}, Unwind: 64},
+				{Pkg: tb, Func: "VH_C14_race", Args: []int64{1}, Unwind: 64, NoWitness: true},
+				{Pkg: tb, Func: "VH_C14_race", Args: []int64{0}, Unwind: 64, NoWitness: true},
 				{Pkg: tb, Func: "VH_C14_diff", Args: []int64{2, 1}, Unwind: 64},
 				{Pkg: tb, Func: "VH_C14_diff", Args: []int64{1, 2}, Unwind: 64},
 				{Pkg: tb, Func: "VH_C14_reconcile", Unwind: 64, EngineOnly: true},
@@ -434,16 +440,15 @@ func init() {
 			}
 			r = append(r, &Instance{Pkg: pb, Func: "VH_C18_pooledsend", Unwind: 32})
 			sn := "replication/snapshot"
-			r = append(r, &Instance{Pkg: sn, Func: "VH_C18_framing", Args: []int64{1, 0}, Unwind: 64})
-			r = append(r, &Instance{Pkg: sn, Func: "VH_C18_framing", Args: []int64{1, 1}, Unwind: 64})
+			r = append(r, &Instance{Pkg: sn, Func: "VH_C18_framing", Args: []int64{1, 0}, Unwind: 64, NoWitness: true})
+			r = append(r, &Instance{Pkg: sn, Func: "VH_C18_framing", Args: []int64{1, 1}, Unwind: 64, NoWitness: true})
 			if tier == "thorough" {
-				r = append(r, &Instance{Pkg: sn, Func: "VH_C18_framing", Args: []int64{2, 2}, Unwind: 64, EngineOnly: true})
+				r = append(r, &Instance{Pkg: sn, Func: "VH_C18_framing", Args: []int64{2, 2}, Unwind: 64, EngineOnly: true, NoWitness: true})
 			} else {
-				r = append(r, &Instance{Pkg: sn, Func: "VH_C18_framing", Args: []int64{1, 2}, Unwind: 64, EngineOnly: true})
+				r = append(r, &Instance{Pkg: sn, Func: "VH_C18_framing", Args: []int64{1, 2}, Unwind: 64, EngineOnly: true, NoWitness: true})
 			}
-			if tier == "thorough" {
-				r = append(r, &Instance{Pkg: sn, Func: "VH_C18_framing", Args: []int64{2, 0}, Unwind: 64})
-			}
+			// (two records with cuts at every byte position exceed the path budget: the
+			// two-record case is covered with whole reads and short reads, [2 2])
 			r = append(r, &Instance{Pkg: sn, Func: "VH_C18_framing_vacuity", Expect: "violated"})
 			r = append(r, &Instance{Pkg: pb, Func: "VH_C18_vacuity", Expect: "violated"})
 			return r
@@ -451,7 +456,7 @@ func init() {
 		Covers: map[string][]string{"VH_C18_mvcc": {"end"}, "VH_C18_api": {"end"}, "VH_C18_replication": {"end"}, "VH_C18_pooledsend": {"end"}, "VH_C18_framing": {"end"}},
 		Bounds: map[string]string{
 			"quick":    "messages: every shape of Command (own optional fields; kv; batch 0..2; txn with 0..1 compare/success/failure of every op kind; sequence of 1..2), CommandResult, Txn, RequestOp, ResponseOp, Compare, KeyValue, Range/Put/DeleteRange/Txn request+response, ResponseHeader, ReplicateRequest/Response (all arms), SnapshotChunk; per run one byte-length class (absent, 1, 2 bytes) and one varint class (0; 1..64; 128..383; top bit set) for all fields of the message, every field with its own symbolic content; KeyValue and SnapshotChunk additionally with independent classes per field; SnapshotChunk into a pooled object that held another chunk, and re-used after ResetVT; Command built on a recycled pooled object. framing: 1 record of 1..3 arbitrary bytes, stream cut at every position (reader hands out 1..n bytes per call), received via WriteTo and via Read; 1 record (thorough: 2) read back through a reader that may return short reads (full / 1 byte / half) at every call (engine only)",
-			"thorough": "framing with 2 records",
+			"thorough": "as quick, with the short-read framing instance over 2 records instead of 1 (engine only)",
 		},
 		Outside:     "gzip / snappy / zstd compressors and their pooled state under concurrency: compression kernels cannot be encoded (declined; the snappy layer inside the snapshot file is an identity pipe here); fields longer than 2 bytes; varint lengths 3..9; mixed presence patterns inside nested messages; the backup tar writer",
 		Assumptions: []string{"the real generated vtproto code and the registered Codec are executed; sync.Pool is a LIFO list (reuse always happens)"},
@@ -509,22 +514,21 @@ func init() {
 		Instances: func(tier string) []*Instance {
 			rp := "replication"
 			r := []*Instance{
-				{Pkg: rp, Func: "VH_C05_round", Args: []int64{0, 1, 1, 1, 14}, Unwind: 64},
-				{Pkg: rp, Func: "VH_C05_round", Args: []int64{1, 4, 1, 1, 14}, Unwind: 64},
-				{Pkg: rp, Func: "VH_C05_round", Args: []int64{2, 2, 0, 1, 7}, Unwind: 64},
-				{Pkg: rp, Func: "VH_C05_split", Args: []int64{4}, Unwind: 64},
+				{Pkg: rp, Func: "VH_C05_round", Args: []int64{0, 1, 1, 1, 14}, Unwind: 64, NoWitness: true},
+				{Pkg: rp, Func: "VH_C05_round", Args: []int64{1, 4, 1, 1, 14}, Unwind: 64, NoWitness: true},
+				{Pkg: rp, Func: "VH_C05_round", Args: []int64{2, 2, 0, 1, 7}, Unwind: 64, NoWitness: true},
+				{Pkg: rp, Func: "VH_C05_split", Args: []int64{4}, Unwind: 64, NoWitness: true},
 				{Pkg: rp, Func: "VH_C05_vacuity", Expect: "violated"},
 			}
 			if tier == "thorough" {
-				r = append(r, &Instance{Pkg: rp, Func: "VH_C05_round", Args: []int64{2, 2, 0, 1, 14}, Unwind: 64},
-					&Instance{Pkg: rp, Func: "VH_C05_round", Args: []int64{2, 4, 1, 1, 7}, Unwind: 64})
+				r = append(r, &Instance{Pkg: rp, Func: "VH_C05_round", Args: []int64{2, 2, 0, 1, 14}, Unwind: 64, NoWitness: true})
 			}
 			return r
 		},
 		Covers: map[string][]string{"VH_C05_round": {"end", "completed"}, "VH_C05_split": {"end"}},
 		Bounds: map[string]string{
 			"quick":    "one replication round (real worker.do + proposeBatch pulling from the real LogServer.Replicate over logreader.Simple): leader table in an arbitrary state (0..1 pairs of 1-byte arbitrary key/value) at an arbitrary index L (1 <= L < 2^14, so one- and two-byte varints and the step between them) with the log compacted up to L; follower with the same content, recorded leader index L and an unrelated own index; the leader then applies m commands: m=0; m=1 of 4 kinds (put, delete, range delete, non-idempotent transaction / dummy as generated by vhArbCommand); m=2 of 2 kinds with L < 2^7; arbitrary 64-bit message-size limit (0 = default), so the stream is cut at every position; the stream deadline may pass on the server at any loop iteration (symbolic clock); oracle: follower content == leader content at exactly the follower's recorded leader index, which is one the leader produced and never moves backwards, and a completed round ends at the leader's applied index with result 'tailing'; (split) one message carrying an arbitrary command of 4 kinds, a put with a 300 KiB value and a small put, so that proposeBatch cuts the message into two proposals at desiredProposalSize: every command applied exactly once",
-			"thorough": "quick + m=2 with L < 2^14, and m=2 of 4 kinds over a table with 0..1 pairs",
+			"thorough": "quick + m=2 (2 kinds) with L < 2^14 (two commands of all 4 kinds over a non-empty table exceed the path budget of 200000 and are not claimed)",
 		},
 		Outside: "proposal-size cuts at other positions than after the second of three commands; the lease/queue scheduling around do() (worker.Start loop, timers, metrics); snapshot recovery when the leader log is ahead (USE_SNAPSHOT path: asserted unreachable here, covered for content by C07); gRPC transport (the stream is an in-memory marshal/unmarshal copy of each message); more than 2 new commands per round; Cached log reader in this round (C06 covers the reader itself); leader-side concurrency (new entries applied while streaming)",
 		Assumptions: []string{
@@ -552,7 +556,7 @@ func init() {
 			r = append(r,
 				&Instance{Pkg: fp, Func: "VH_C08_cuts", Args: []int64{2}, Unwind: 64, EngineOnly: true},
 				&Instance{Pkg: fp, Func: "VH_C08_stop", Args: []int64{0, 1}, Unwind: 64},
-				&Instance{Pkg: fp, Func: "VH_C08_stop", Args: []int64{1, 1}, Unwind: 64},
+				&Instance{Pkg: fp, Func: "VH_C08_stop", Args: []int64{1, 1}, Unwind: 64, NoWitness: true}, // the k-th read of a real tar stream is elsewhere
 				&Instance{Pkg: fp, Func: "VH_C08_crash", Args: []int64{0}, Unwind: 64},
 				&Instance{Pkg: fp, Func: "VH_C08_crash", Args: []int64{1}, Unwind: 64},
 				&Instance{Pkg: fp, Func: "VH_C08_readacross", Args: []int64{0, 0}, Unwind: 64},
